@@ -204,9 +204,9 @@ def generated(ctx):
     def _alarm(signum, frame):
         raise _Slow()
 
-    signal.signal(signal.SIGALRM, _alarm)
+    signal.signal(signal.SIGVTALRM, _alarm)
     for i in range(n):
-        signal.alarm(2)
+        signal.setitimer(signal.ITIMER_VIRTUAL, 2)
         try:
             e = gen_sympy(rng, rng.randint(1, 4))
             if len(str(e)) > 300 or any(a.is_Integer and abs(a) > 10**30 for a in sympy.preorder_traversal(e)):
@@ -223,7 +223,7 @@ def generated(ctx):
         except Exception:
             continue
         finally:
-            signal.alarm(0)
+            signal.setitimer(signal.ITIMER_VIRTUAL, 0)
         ctx.stats["generated_verdict_" + v] += 1
         if v in ("different", "error"):
             ctx.violation("failing-input", f"generated expression does not survive serialize->parse: {d}", {"expression_srepr": sympy.srepr(e), "printed": s}, s, str(e))
